@@ -60,7 +60,11 @@ CInit(cf, active) ==
       led    |-> <<>>,       \* C06 ledger of deferred commands of the open episode
       n      |-> 0,          \* step counter
       cnt    |-> [open |-> 0, closeMove |-> 0, closeOff |-> 0, closeHook |-> 0,
-                  owed |-> 0, defer |-> 0, c04b |-> 0, c05c |-> 0, offMoves |-> 0],
+                  owed |-> 0, defer |-> 0, c04b |-> 0, c05c |-> 0, offMoves |-> 0,
+                  \* observation beyond the listed properties (DESIGN.md section 9): forwarded
+                  \* moves outside episodes, and how many of them run at a modal feed rate
+                  \* different from the one the unfiltered file would have selected
+                  feedJudged |-> 0, feedDrift |-> 0],
       v      |-> OkV ]
 
 (***************************************************************************)
@@ -330,7 +334,11 @@ GStepActive(cs, ev, q, tol) ==
                                        /\ Ret(p1) <= Ret(g1) + tol THEN 1 ELSE 0),
                       !.c04b = @ + (IF scA1 /\ know /\ isMove /\ outside /\ ~cs.ep
                                        /\ g1.fil > g0.fil THEN 1 ELSE 0),
-                      !.offMoves = @ + (IF ~cs.en /\ isMove THEN 1 ELSE 0)],
+                      !.offMoves = @ + (IF ~cs.en /\ isMove THEN 1 ELSE 0),
+                      !.feedJudged = @ + (IF mon /\ isMove /\ ~ep1 /\ ev.res \notin {"suppress", "exc"}
+                                          THEN 1 ELSE 0),
+                      !.feedDrift = @ + (IF mon /\ isMove /\ ~ep1 /\ ev.res \notin {"suppress", "exc"}
+                                            /\ ~Near(p1.feed, g1.feed, tol) THEN 1 ELSE 0)],
            !.v = Judge(cs.v, checks, 1, n, tag)]
 
 (***************************************************************************)
